@@ -110,6 +110,27 @@ G_ASSUMPTIONS = [
 KT_ASSUMPTIONS = ["KT: kernels are lifted verbatim from sylvia-derive (match arms / function bodies are the repository's bytes); dropped by lifting: the scrutinee expression becomes a &str parameter, Error::new/.span() become a shim, parse_quote!{X} becomes stringify!(X); strings longer than 24 bytes cannot equal any literal in the tables (stated, not machine-checked)"]
 
 
+# what is under contract per property on the G/K/KT side: the GENERATED function the postcondition is stated on, and
+# the generator code (anchors of properties.jsonl) that emits it
+UNDER_CONTRACT = {
+    "C01": ["generated sv::{Exec,Query,Sudo}Msg / InstantiateMsg / MigrateMsg: derived Serialize / Deserialize impls and constructors (emitted by MsgVariant::emit, emit_variants_constructors, MsgField::emit, MsgType::emit_derive_call; contract/communication/enum_msg.rs, struct_msg.rs; interface/communication/enum_msg.rs)"],
+    "C02": ["generated <Msg>::dispatch of every message type (MsgVariant::emit_dispatch_leg, MsgType::emit_dispatch_leg, struct_msg.rs emit_dispatch)", "generated Contract<K>Msg::dispatch (wrapper_msg.rs, Interfaces::emit_dispatch_arms)", "sylvia::ctx: From<tuple> for ExecCtx, InstantiateCtx, QueryCtx, SudoCtx, MigrateCtx, ReplyCtx (sylvia/src/ctx.rs:80-133)"],
+    "C03": ["generated sv::<ep>_messages() (MsgVariants::as_names_snake_cased; enum_msg.rs)", "generated Contract<K>Msg: Serialize (untagged), From<part>, dispatch (wrapper_msg.rs; types/interfaces.rs)"],
+    "C04": ["generated entry_points::<k> signatures and ContractApi associated types (entry_points.rs; contract/communication/api.rs)", "generated message enums: exact variant sets (MsgVariants::new kind filter)", "MsgType::new, MsgAttrForwarding / OverrideEntryPoint kind tables, SylviaAttribute::match_attribute (lifted kernels)"],
+    "C05": ["generated sv::<ep>_messages() of every part: sorted, one entry per method, equal to the serialised variant names"],
+    "C06": ["generated entry_points::{instantiate, execute, query, sudo, migrate, reply} (EntryPoints::emit, emit_default_entry_point; entry_points.rs:106-231)", "OverrideEntryPoint::parse kind table, MsgType::new, MsgType::emit_ep_name / emit_msg_name / emit_msg_wrapper_name / as_accessor_name / as_accessor_wrapper_name (lifted kernels)"],
+    "C07": ["generated sv::dispatch_reply (Reply::emit_dispatch, ReplyData::emit_match_arms / emit_success_match_arm / emit_error_match_arm; reply.rs)", "ReplyOn::new, ReplyOn::excludes (lifted kernels)", "sylvia::ctx From<(DepsMut, Env, u64, Vec<Event>, Vec<MsgResponse>)> for ReplyCtx"],
+    "C08": ["generated sv::SubMsgMethods impls for SubMsg / WasmMsg / CosmosMsg (ReplyData::emit_submsg_setter, emit_submsg_converter, emit_cw_reply_on; reply.rs)", "generated <NAME>_REPLY_ID constants (Reply::emit_reply_ids)"],
+    "C09": ["generated data extraction in the success arm of sv::dispatch_reply (DataField::emit_data_deserialization; reply.rs:584-671)"],
+    "C10": ["generated sv::Executor / <iface>::sv::Executor trait methods (contract/communication/executor.rs, interface/communication/executor.rs)", "sylvia::types::Remote::{new, borrowed, as_ref, executor, update_admin, clear_admin} (sylvia/src/types.rs:405-460)"],
+    "C11": ["generated bridged dispatch arm of Contract{Exec,Sudo,Query}Msg::dispatch (Interfaces::emit_dispatch_arms, MsgType::emit_ctx_dispatch_values; types/interfaces.rs:114-137)"],
+    "C14": ["the C02/C03/C05/C07/C08 contracts re-stated on permuted twins; `<fixture>.T.accepted` for both declaration orders"],
+    "C15": ["generated generic message types and their dispatch (MsgVariants::new used/unused split, filter_wheres, CheckGenerics; api.rs aliases)"],
+    "C17": ["generated message types / variants / fields of fx_attr (MsgAttrForwarding filter in enum_msg.rs / struct_msg.rs, MsgVariant::emit attrs_to_forward, MsgField::emit)", "MsgAttrForwarding kind table (lifted kernel)"],
+    "C20": ["sylvia::types::Remote: derived Serialize / Deserialize, manual JsonSchema impl (schema_name, schema_id), new / borrowed / as_ref (sylvia/src/types.rs:370-460)"],
+}
+
+
 def g_prop(explanation, features=None, uncovered=None, extra_assumptions=(), kernels=False):
     def f(prop, tier, seed):
         obs, infos = K.run_property(prop, tier, features)
@@ -119,7 +140,7 @@ def g_prop(explanation, features=None, uncovered=None, extra_assumptions=(), ker
         if not obs:
             raise Undecided("no obligation registered for %s in tier %s" % (prop, tier))
         fixtures = sorted(set(o.extra.get("fixture", "") for o in obs if o.extra.get("fixture")))
-        return dict(obs=obs, infos=infos, level="other", assumptions=G_ASSUMPTIONS + (KT_ASSUMPTIONS if kernels else []) + list(extra_assumptions), explanation=explanation, fixtures=fixtures, uncovered=uncovered or [])
+        return dict(obs=obs, infos=infos, level="other", assumptions=G_ASSUMPTIONS + (KT_ASSUMPTIONS if kernels else []) + list(extra_assumptions), explanation=explanation, fixtures=fixtures, uncovered=uncovered or [], functions_under_contract=UNDER_CONTRACT.get(prop, []))
     return f
 
 
@@ -246,7 +267,18 @@ def finish(prop, tier, seed, result, wall):
         "rule": "one record per proof unit / harness / type-level obligation; distinct = distinct obligation names",
         "exhaustive": False,
     }
-    for k in ("fixtures", "bounds", "functions_under_contract", "uncovered"):
+    fuc = list(result.get("functions_under_contract") or UNDER_CONTRACT.get(prop, []))
+    for i in result["infos"]:
+        for f in (i or {}).get("functions_under_contract", []):
+            if f not in fuc:
+                fuc.append(f)
+    cov["functions_under_contract"] = fuc
+    eng = {}
+    for o in obs:
+        e = eng.setdefault(o.engine, {"obligations": 0, "discharged": 0, "refuted": 0, "undecided": 0, "solver_seconds": 0.0, "backend": o.backend})
+        e["obligations"] += 1; e[o.status] += 1; e["solver_seconds"] = round(e["solver_seconds"] + o.seconds, 3)
+    cov["per_engine"] = eng
+    for k in ("fixtures", "bounds", "uncovered"):
         if result.get(k) is not None:
             cov[k] = result[k]
     write_evidence(prop, tier, seed, level, cov, result.get("assumptions", []), wall, len(violations))
